@@ -52,3 +52,30 @@ Definition column_set_spec (k : kind) (C Rn i : Z) : list expr :=
   flat_map (fun c => map (fun r => if c =? i then V k 1 r else V k 0 (c * Rn + r)) (zseq Rn)) (zseq C).
 Definition row_set_spec (k : kind) (C Rn i : Z) : list expr :=
   flat_map (fun c => map (fun r => if r =? i then V k 1 c else V k 0 (c * Rn + r)) (zseq Rn)) (zseq C).
+
+(* ---- determinants and inverses (C10) ---- *)
+Fixpoint insert_all (x : Z) (l : list Z) : list (list Z * Z) :=
+  match l with
+  | [] => [([x], 0)]
+  | y :: r => (x :: y :: r, 0) :: map (fun '(p, j) => (y :: p, j + 1)) (insert_all x r)
+  end.
+(* all permutations of l, each with its number of inversions *)
+Fixpoint perms (l : list Z) : list (list Z * Z) :=
+  match l with
+  | [] => [([], 0)]
+  | x :: r => flat_map (fun '(p, s) => map (fun '(q, j) => (q, s + j)) (insert_all x p)) (perms r)
+  end.
+Definition prod_e (k : kind) (l : list expr) : expr := fold_left (fun acc e => B Mul k acc e) l (one_of k).
+(* Leibniz expansion  sum_sigma sgn(sigma) prod_i M[i][sigma i]  of the N x N matrix given by m *)
+Definition leibniz_of (k : kind) (N : Z) (m : Z -> expr) : expr :=
+  fold_left (fun acc '(p, s) =>
+    let term := prod_e k (map (fun '(i, j) => m (i * N + j)) (combine (zseq N) p)) in
+    if Z.even s then B Add k acc term else B Sub k acc term) (perms (zseq N)) (zero_of k).
+Definition leibniz (k : kind) (N : Z) : expr := leibniz_of k N (V k 0).
+Definition matmul_e (k : kind) (N : Z) (a b : Z -> expr) : list expr := mm_gen (zero_of k) (B Add k) (B Mul k) N N N a b.
+Definition ident_e (k : kind) (N : Z) : list expr := flat_map (fun c => map (fun r => if c =? r then one_of k else zero_of k) (zseq N)) (zseq N).
+Definition scaled_ident_e (k : kind) (N : Z) (d : expr) : list expr := flat_map (fun c => map (fun r => if c =? r then d else zero_of k) (zseq N)) (zseq N).
+Definition transpose_of (N : Z) (l : list expr) : list expr := flat_map (fun c => map (fun r => nth_e l (r * N + c)) (zseq N)) (zseq N).
+(* substitution fixing the last row of an N x N matrix (argument 0) to (0,...,0,1): an affine transform *)
+Definition affine_subst (N : Z) (k : kind) (a i : Z) : expr :=
+  if (a =? 0) && (i mod N =? N - 1) then (if i / N =? N - 1 then one_of k else zero_of k) else V k a i.
